@@ -11,7 +11,9 @@ use compio_driver::BufferAllocator;
 
 #[derive(Default)]
 pub struct AllocState {
-    pub live: HashMap<usize, u32>,
+    /// address -> (length, epoch of the case that allocated it)
+    pub live: HashMap<usize, (u32, u64)>,
+    pub epoch: u64,
     pub allocs: u64,
     pub frees: u64,
     pub double_frees: u64,
@@ -24,13 +26,20 @@ fn with<R>(f: impl FnOnce(&mut AllocState) -> R) -> R {
     f(g.get_or_insert_with(AllocState::default))
 }
 
+/// Start a new case. Buffers of earlier cases that are still alive (an operation that finishes late on a
+/// pool thread) stay known, so that their late deallocation is not mistaken for a double free.
 pub fn reset() {
-    with(|s| *s = AllocState::default());
+    with(|s| {
+        s.epoch += 1;
+        s.allocs = 0;
+        s.frees = 0;
+        s.double_frees = 0;
+    });
 }
 
 /// (live buffers, allocations, frees, double frees)
 pub fn stats() -> (usize, u64, u64, u64) {
-    with(|s| (s.live.len(), s.allocs, s.frees, s.double_frees))
+    with(|s| (s.live.values().filter(|(_, e)| *e == s.epoch).count(), s.allocs, s.frees, s.double_frees))
 }
 
 pub fn is_live(addr: usize) -> bool {
@@ -45,7 +54,8 @@ impl BufferAllocator for TrackAlloc {
         let ptr = Box::into_raw(vec![0u8; len.max(1) as usize].into_boxed_slice()) as *mut MaybeUninit<u8>;
         with(|s| {
             s.allocs += 1;
-            s.live.insert(ptr as usize, len);
+            let e = s.epoch;
+            s.live.insert(ptr as usize, (len, e));
         });
         unsafe { NonNull::new_unchecked(ptr) }
     }
